@@ -2117,7 +2117,8 @@ package apd
 //@   ensures [wf] ret2 == nil ==> ret0 != nil && inv(ret0)
 // ---------------------------------------------------------------- formatting: no panic (C04); the text itself is C13/C14
 //@ func (*BigInt).Append
-//@   trusted math/big's formatter: appends at least one digit
+//@   trusted math/big's formatter: appends at least one digit (panics for a base outside 2..62)
+//@   requires 2 <= base && base <= 62
 //@   pure
 //@   allocates
 //@   ensures len(ret) >= len(buf) + 1
